@@ -31,12 +31,15 @@ func suiteC12(s *Suite, rng *Rng, tier string) {
 		nLogic = 150000
 	}
 	box := int64(40)
+	kpLogic := makeKey(256, 0, 4, rng, false)
 	for it := 0; it < nLogic; it++ {
 		nsq := 3 + rng.Intn(2)
 		sign := []int{1, -1, 1, -1, 0, 2, -2}[rng.Intn(7)]
 		var a uint
 		if nsq == 3 && rng.Intn(4) != 0 {
 			a = 4
+		} else if nsq == 3 && rng.Intn(2) == 0 {
+			a = uint(rng.Intn(18)) // the neighbours of the only admissible three-square factor, 4
 		} else {
 			a = edgeFactors[rng.Intn(len(edgeFactors))]
 		}
@@ -80,9 +83,22 @@ func suiteC12(s *Suite, rng *Rng, tier string) {
 		}
 		_ = typ
 		s.Add(1202, "proven-statement", it < 400, dumpRangeProof(p), L{p.Sign, pf, pb})
-		// oracle: only descriptors the verifier would accept (sign +-1, 3 squares => A=4), and only
-		// for factors where the verified relation is about the reported factor (A < 2^63)
-		if psign == 0 || (nsq == 3 && a != 4) {
+		// which descriptors the verifier admits: sign +-1, factor below 2^63, three squares only with factor 4
+		// (proof.go ExtractStructure / newWithParams; theorem C12.extract_structure_accepts)
+		{
+			shaped := &rangeproof.Proof{Cs: make([]*gbig.Int, nsq), Ld: 8, Sign: sign, A: a, K: k}
+			_, xerr := shaped.ExtractStructure(1, kpLogic.Pk)
+			admissible := (sign == 1 || sign == -1) && a < 1<<63 && (nsq != 3 || a == 4)
+			if (xerr == nil) != admissible {
+				s.Violate("C12:descriptor-admission", fmt.Sprintf("ExtractStructure on descriptor (sign %d, A %d, K %s, %d squares): accepted=%v, admissible=%v", sign, a, k, nsq, xerr == nil, admissible), L{sign, a, k, nsq})
+			}
+			if xerr != nil {
+				continue
+			}
+		}
+		// oracle: only for descriptors the verifier accepts, and only for factors where the verified relation is about the
+		// reported factor (A < 2^63)
+		if psign == 0 {
 			continue
 		}
 		for m := int64(0); m <= box; m++ {
